@@ -590,7 +590,7 @@ impl Prop for C14 {
         &["TruthModel.C14.label_parse", "TruthModel.C14.label_parse_mapfile", "TruthModel.C14.reachable_inv", "TruthModel.C14.defineFromMapfile_inv",
           "TruthModel.C14.expand_exactly_one_full", "TruthModel.C14.selArg_stable", "TruthModel.C14.assign_exactly_one",
           "TruthModel.C14.recognize_sound", "TruthModel.C14.recognize_expand", "TruthModel.C14.lowerStmt_canonical", "TruthModel.C14.recognize_preserves_times",
-          "TruthModel.C14.recognize_no_fold_across_label", "TruthModel.C14.recognize_fold_masks", "TruthModel.C14.recognize_unsound_signed_zero", "TruthModel.C14.recognize_unsound_unraisable"]
+          "TruthModel.C14.recognize_no_fold_across_label", "TruthModel.C14.recognize_fold_masks", "TruthModel.C14.fold_fallback_lowers", "TruthModel.C14.signed_zero_ladder_roundtrips", "TruthModel.C14.unraisable_ladder_roundtrips"]
     }
 
     fn gen(&self, tier: Tier, rng: &mut Rng) -> Vec<Case> {
